@@ -5,9 +5,11 @@ from core import BaseProp, Verdict
 from proto import T
 
 RULE = ('real threads under a deterministic line-granularity scheduler (sys.settrace): thread A makes the first parse on a fresh '
-        'shared Licensing and is preempted before its k-th library line, for every k of the first-use window (quick: every 2nd k of '
-        'the tokenizer construction; thorough: every k of the whole parse, plus sampled pairs of preemptions); while A is suspended '
+        'shared Licensing and is preempted before its k-th library line, for every k of the first-use window (every k of the whole parse, '
+        'plus sampled pairs of preemptions); while A is suspended '
         'thread B parses on the same Licensing to completion and thread C constructs another Licensing and parses; then A resumes. '
+        'The subsequent parse: on a Licensing that has already parsed one text, A parses another text (or the same) and is preempted '
+        'before every k-th line while B parses the previous (or another) text. '
         'Spec: every result equals the result of the call run alone. Correspondence: the sequence of protocol steps the threads '
         'took (read shared / allocate / add / make_automaton / publish / use) is replayed on the Lean protocol model and the '
         'tokenizer each thread used (entries, finalised) must be the one the model says. non-trivial = the preemption falls inside '
@@ -16,12 +18,15 @@ ASSUMPTIONS = ['line granularity, as the property says; bytecode-level preemptio
 TRUSTED_EXTRA = ['the deterministic thread scheduler harness/sched.py (sys.settrace + semaphores)']
 
 le = impl.le
+BIG = 10 ** 9
 
 TABLES = [
     ([['GPL 2.0', ['gplv2'], False], ['mit', [], False], ['gnu gpl', [], False]], 'gnu  gpl or MIT and gpl 2.0'),
     ([['GPL-2.0', ['GPLv2', 'GNU GPL 2'], False], ['Classpath-exception-2.0', ['Classpath', 'GNU Classpath'], True], ['MIT', ['MIT License'], False]],
      'GPLv2 with Classpath or mit or foo bar'),
 ]
+# the other text of the `subsequent parse` scenarios, per table
+TEXTS2 = ['mit and (gplv2 or unknown thing)', 'MIT License and (GNU GPL 2 or foo bar)']
 
 
 def canon(r):
@@ -33,10 +38,51 @@ def canon(r):
 class Prop(BaseProp):
     def solo(self, table, text):
         L = le.Licensing(impl.table_objs(table))
-        ts, abstract = sched.run([lambda: L.parse(text)], lambda i, r, st: r[0])
+        ts, abstract = sched.run([lambda: L.parse(text)], lambda i, r, st: (r[0], BIG))
         return ts[0].steps, canon(ts[0].result), abstract
 
+    def eval_warm(self, drv, case, solo_cache={}):
+        """the subsequent parse: the shared Licensing has already parsed `text` (thread 2 runs first, alone); then thread A is
+        preempted before its k-th line while thread B parses to completion. scn 'warm-new': A parses another text, B the
+        previous one; 'warm-prev': A parses the previous text, B another one."""
+        ti, ks, scn = case['table'], case['ks'], case['scn']
+        table, text = TABLES[ti]
+        text2 = TEXTS2[ti]
+        for tx in (text, text2):
+            if (ti, tx) not in solo_cache:
+                solo_cache[(ti, tx)] = self.solo(table, tx)
+        nadd = len([m for _, m in solo_cache[(ti, text)][2] if m == 'add'])
+        ta, tb = (text2, text) if scn == 'warm-new' else (text, text2)
+        L = le.Licensing(impl.table_objs(table))
+        k0 = ks[0]
+
+        def sf(i, runnable, steps):
+            if 't2' in runnable:
+                return ('t2', BIG)
+            if 't0' in runnable and steps['t0'] < k0:
+                return ('t0', k0 - steps['t0'])
+            if 't1' in runnable:
+                return ('t1', BIG)
+            return ('t0', BIG)
+        try:
+            ts, abstract = sched.run([lambda: L.parse(ta), lambda: L.parse(tb), lambda: L.parse(text)], sf)
+        except RuntimeError as e:
+            return Verdict('spec', case, str(e))
+        got = [canon(t.result) for t in ts]
+        want = [solo_cache[(ti, ta)][1], solo_cache[(ti, tb)][1], solo_cache[(ti, text)][1]]
+        tags = [scn]
+        if got != want:
+            return Verdict('spec', case, 'a call on a used shared Licensing returns something else than when run alone', impl=got, model=want, tags=tags)
+        pcs = drv.call(T('sched'), T('new'), nadd, 3, [t for t, m in abstract])
+        for i in (0, 1, 2):
+            obs = ts[i].use_obs
+            if pcs[i] != [T('done'), nadd, 1] or obs is None or obs[1] is not True:
+                return Verdict('diverge', case, 'protocol trace (thread %d, %s)' % (i, scn), impl=[obs, [m for t, m in abstract if t == i][:12]], model=pcs[i], tags=tags)
+        return Verdict('ok', case, impl=got[0], nontrivial=True, tags=tags)
+
     def eval_case(self, drv, case, solo_cache={}):
+        if case.get('scn', 'first') != 'first':
+            return self.eval_warm(drv, case)
         ti, ks = case['table'], case['ks']
         table, text = TABLES[ti]
         key = ti
@@ -63,16 +109,16 @@ class Prop(BaseProp):
 
         def sf(i, runnable, steps):
             if 't0' in runnable and steps['t0'] < k0:
-                return 't0'
+                return ('t0', k0 - steps['t0'])
             if k1 is not None and 't1' in runnable and steps['t1'] < k1:
-                return 't1'
+                return ('t1', k1 - steps['t1'])
             if k1 is not None and 't2' in runnable:
-                return 't2'
+                return ('t2', BIG)
             if 't1' in runnable:
-                return 't1'
+                return ('t1', BIG)
             if 't2' in runnable:
-                return 't2'
-            return 't0'
+                return ('t2', BIG)
+            return ('t0', BIG)
         try:
             ts, abstract = sched.run([fa, fb, fc], sf)
         except RuntimeError as e:
@@ -98,14 +144,18 @@ class Prop(BaseProp):
             nsteps, _, solo_abs = self.solo(table, text)
             # the first-use window ends when the automaton is published: find the step count at `publish`
             L = le.Licensing(impl.table_objs(table))
-            stride = 1 if tier == 'thorough' else 3
+            stride = 1
             for k in range(0, nsteps + 1, stride):
                 cases.append({'table': ti, 'ks': [k]})
+            for scn, tx in (('warm-new', TEXTS2[ti]), ('warm-prev', text)):
+                n2 = self.solo(table, tx)[0]
+                for k in range(0, n2 + 1):
+                    cases.append({'table': ti, 'ks': [k], 'scn': scn})
             if tier == 'thorough':
-                for _ in range(150):
+                for _ in range(1500):
                     cases.append({'table': ti, 'ks': [rng.randint(0, nsteps), rng.randint(0, nsteps)]})
             else:
-                for _ in range(10):
+                for _ in range(100):
                     cases.append({'table': ti, 'ks': [rng.randint(0, nsteps), rng.randint(0, nsteps)]})
         n = 0
         for i, c in enumerate(cases):
@@ -113,7 +163,7 @@ class Prop(BaseProp):
                 continue
             self.record(self.eval_case(drv, c))
             n += 1
-        self.res['exhaustive'].append({'scope': 'single preemptions of the first parse (stride %d)' % (1 if tier == 'thorough' else 3), 'cases': n, 'complete': tier == 'thorough', 'worker': index})
+        self.res['exhaustive'].append({'scope': 'every single preemption of thread A (first use; subsequent parse of a new and of the previous text), 2 tables', 'cases': n, 'complete': True, 'worker': index})
         return self.res
 
     def replay(self, drv, data):
